@@ -88,6 +88,7 @@ def parse_cfg(s):
 
 def run_lines(exe, lines, mode, timeout=1500):
     if not lines: return []
+    import time; _t0 = time.time()
     path = os.path.join(vlib.BUILD, "C18", "in_%d_%s.txt" % (os.getpid(), mode))
     open(path, "w").write("\n".join(lines) + "\n")
     rc, out, err = vlib.sh2([exe, path, mode], timeout=timeout)
@@ -95,6 +96,30 @@ def run_lines(exe, lines, mode, timeout=1500):
     res = out.splitlines()
     if rc != 0 or len(res) != len(lines):
         raise RuntimeError("%s %s failed rc=%s (%d of %d lines)\n%s" % (exe, mode, rc, len(res), len(lines), err[-2000:]))
+    log("%s %s: %d lines in %.1fs" % (os.path.basename(exe), mode, len(lines), time.time() - _t0))
+    return res
+
+
+def run_lines_par(exe, lines, mode, k=3, timeout=1500):
+    """the same as run_lines, the lines split over k processes (order of results preserved)"""
+    if len(lines) < 2 * k: return run_lines(exe, lines, mode, timeout)
+    from concurrent.futures import ThreadPoolExecutor
+    chunks = [lines[i::k] for i in range(k)]
+    def one(ic):
+        i, c = ic
+        path = os.path.join(vlib.BUILD, "C18", "in_%d_%s_%d.txt" % (os.getpid(), mode, i))
+        open(path, "w").write("\n".join(c) + "\n")
+        rc, out, err = vlib.sh2([exe, path, mode], timeout=timeout)
+        os.remove(path)
+        res = out.splitlines()
+        if rc != 0 or len(res) != len(c):
+            raise RuntimeError("%s %s failed rc=%s (%d of %d lines)\n%s" % (exe, mode, rc, len(res), len(c), err[-2000:]))
+        return res
+    import time; t0 = time.time()
+    with ThreadPoolExecutor(k) as ex: parts = list(ex.map(one, enumerate(chunks)))
+    log("%s %s: %d lines in %.1fs (%d processes)" % (os.path.basename(exe), mode, len(lines), time.time() - t0, k))
+    res = [None] * len(lines)
+    for i, p in enumerate(parts): res[i::k] = p
     return res
 
 
@@ -159,6 +184,12 @@ def run(ctx):
     if meta:
         errname = {i: "err:%s:%s" % (k, g) for i, (k, g) in enumerate(meta["errors"])}
         shapes = [(f, g) for (f, g, how) in meta["shapes"] if f]
+    # the oracle's notion of "the options naming a setting" is the public API convention
+    # set_<field> -> <field>; it does not depend on the extraction (which may fail on an edited tree)
+    api_shapes = [(f, f[4:]) for f in OFIELDS]
+    if meta and sorted(shapes) != sorted(api_shapes) and r["ok"]:
+        r["ok"] = False; r["failures"].append("the statements of ConfigOptions::apply no longer map set_<field> to <field>: %s" % sorted(set(shapes) ^ set(api_shapes)))
+    shapes = api_shapes
     named_by = {}
     for f, g in shapes: named_by.setdefault(g, []).append(f)
 
@@ -234,46 +265,93 @@ def run(ctx):
         if len(samples) < 2 and nst == 2 and " err:" in a: samples.append({"mode": "apply", "case": ln, "impl": a, "model": b})
 
     # ---------------------------------------------------------------- 2. init / apply_config on a repository
+    # plain and hot/cold repositories; both stored config files are decoded after every step and the
+    # repository is re-opened in every way a user can (both parts, cold part alone, open_only_cold)
     n_repo = 0 if only and only != "repo" else (3000 if T else 400)
     lines = list(corpus["repo"])
     while len(lines) < n_repo + len(corpus["repo"]) and not (only == "repo"):
         first = gen_smoke_opts(rng) if rng.random() < 0.7 else gen_opts(rng, 0.2)
         if rng.random() < 0.15: first["set_append_only"] = rng.choice([0, 1])
         steps = [first] + [gen_opts(rng, rng.choice([0.08, 0.2, 0.4])) for _ in range(rng.choice([1, 2, 3, 5]))]
-        lines.append("%d " % len(steps) + " ".join(opts_line(o) for o in steps))
-    io = run_lines(impl, lines, "repo")
+        lines.append("%d %d " % (rng.randint(0, 1), len(steps)) + " ".join(opts_line(o) for o in steps))
+    io = run_lines_par(impl, lines, "repo", 4)
     mo = [canon_model(x) for x in run_lines(model, lines, "repo")] if model else [None] * len(lines)
+    def canon_repo(a):
+        import re
+        return re.sub(r"open-err:\S+", "open-refused", a)
     for ln, a, b in zip(lines, io, mo):
+        toks = ln.split()
+        hot = toks[0] == "1"
+        tag = "hot" if hot else "plain"
         parts = a.split(" | ")
+        def V(what, detail): viol.append((what, "repo", ln, a, detail, None))
         if parts[0] == "init:panic":
-            bump("init_panic"); viol.append(("Repository::init panics", "repo", ln, a, "", None)); continue
+            bump("init_panic"); V("Repository::init panics", ""); continue
         if parts[0].startswith("init:err"):
-            bump("init_refused")
-            if not parts[0].endswith("files=0"):
-                viol.append(("a refused initialisation wrote files", "repo", ln, a, "", None))
+            bump("init_refused_" + tag)
+            if not parts[0].endswith("files=0"): V("a refused initialisation wrote files", "")
         else:
-            bump("init_ok")
-            prev_file, prev_w = None, None
-            for k, p in enumerate(parts):
+            bump("init_ok_" + tag)
+            prev = None
+            for k, p in enumerate(parts[:-1]):
                 t = p.split(" ")
-                if len(t) < 4:
-                    viol.append(("malformed harness output", "repo", ln, a, p, None)); break
-                cls, mem, fil, w = t[0], t[1], t[2], int(t[3][2:])
+                if len(t) != 8:
+                    V("malformed harness output", p); break
+                cls, mem, cold, hotc, w, o_both, o_alone, o_only = t
                 if cls == "panic":
-                    viol.append(("apply_config panics", "repo", ln, a, "step %d" % k, None)); break
-                if fil.startswith("open-"):
-                    viol.append(("repository cannot be opened after a configuration step", "repo", ln, a, "step %d: %s" % (k, fil), None)); break
+                    V("apply_config panics", "step %d" % k); break
+                bad = [x for x in (cold, hotc) if x.startswith("decode-")]
+                if bad:
+                    V("after %s a stored configuration file cannot be decoded: %s" % ("init" if k == 0 else "a configuration change", bad[0][:120]), "step %d" % k); break
+                failed_open = [(nm, x) for nm, x in (("both parts", o_both), ("cold part alone", o_alone), ("open_only_cold", o_only)) if x.startswith("open-")]
+                for nm, x in failed_open:
+                    V("after %s the repository cannot be opened (%s): %s" % ("init" if k == 0 else "an accepted configuration change", nm, x[:110]),
+                      "step %d: stored cold=%s hot=%s" % (k, cold, hotc))
+                M, C = parse_cfg(mem), parse_cfg(cold)
+                H = parse_cfg(hotc) if hot else None
+                o = dict(zip(OFIELDS, toks[2 + 16 * k: 18 + 16 * k]))
+                # what is stored: cold file = repo.config() without hot marker, hot copy = with marker
+                if C["is_hot"] != "-": V("the stored cold config carries the hot marker", "step %d: is_hot=%s" % (k, C["is_hot"]))
+                if hot and H["is_hot"] != "1": V("the stored hot config lacks the hot marker", "step %d" % k)
+                if (hotc == "none") != (not hot): V("hot config copy present/absent against the kind of repository", "step %d" % k)
+                for g in CFIELDS:
+                    if g == "is_hot": continue
+                    if C[g] != M[g] or (hot and H[g] != M[g]):
+                        V("stored configuration differs from repo.config() in %s" % g, "step %d" % k)
+                # every way of opening sees the stored settings
+                for nm, oc in (("both parts", o_both), ("cold part alone", o_alone), ("open_only_cold", o_only)):
+                    if oc == "na" or oc.startswith("open-"): continue
+                    O = parse_cfg(oc)
+                    if any(O[g] != M[g] for g in CFIELDS if g != "is_hot"):
+                        V("opening the repository (%s) shows settings other than the current ones" % nm, "step %d" % k)
                 if k > 0:
-                    bump("cfg_" + ("refused" if cls.startswith("err") else cls))
-                    if cls != "changed" and (fil != prev_file or w != prev_w):
-                        viol.append(("a refused or no-op change touched the stored configuration", "repo", ln, a, "step %d" % k, None))
+                    bump("cfg_" + ("refused" if cls.startswith("err") else cls) + "_" + tag)
+                    pM, pC, pH, pw = prev
+                    if cls != "changed" and (cold != pC or hotc != pH or w != pw):
+                        V("a refused or no-op change touched a stored configuration file", "step %d" % k)
                     if cls == "changed":
                         nontriv.add(ln)
-                        if w != prev_w + 1: viol.append(("an effective change wrote %d config files" % (w - prev_w), "repo", ln, a, "step %d" % k, None))
-                if mem != fil:
-                    viol.append(("stored configuration differs from repo.config()", "repo", ln, a, "step %d" % k, None))
-                prev_file, prev_w = fil, w
-        if b is not None and a != b: mism.append(("repo", ln, a, b))
+                        wc, wh = [int(x) for x in w[2:].split(",")]; pc, ph = [int(x) for x in pw[2:].split(",")]
+                        if wc != pc + 1 or wh != ph + (1 if hot else 0):
+                            V("an effective change wrote %d cold / %d hot config files" % (wc - pc, wh - ph), "step %d" % k)
+                    # frame on the STORED files: a setting none of whose options is given is stored as before
+                    PC = parse_cfg(pC); PH = parse_cfg(pH) if hot else None
+                    for g in CFIELDS:
+                        if all(o.get(f, "-") == "-" for f in named_by.get(g, [])):
+                            if C[g] != PC[g]: V("a configuration change altered a stored setting it does not name: %s in the cold config" % g,
+                                                "step %d: %s was %s, now %s" % (k, g, PC[g], C[g]))
+                            if hot and H[g] != PH[g]: V("a configuration change altered a stored setting it does not name: %s in the hot config" % g,
+                                                        "step %d: %s was %s, now %s" % (k, g, PH[g], H[g]))
+                    if cls == "changed":
+                        for f, g in shapes:
+                            if o[f] != "-" and (C[g] != o[f] or (hot and H[g] != o[f])):
+                                V("an effective change did not store the named setting %s" % f, "step %d" % k)
+                prev = (mem, cold, hotc, w)
+                if failed_open: break
+            else:
+                if parts[-1] != "end=ok":
+                    V("an accepted configuration does not work: backup through the repository, then check --read-data / restore on the cold part alone: %s" % parts[-1][:150], parts[-1])
+        if b is not None and canon_repo(a) != b: mism.append(("repo", ln, a, b))
         if len(samples) < 4 and " | err" in a and "changed" in a: samples.append({"mode": "repo", "case": ln, "impl": a, "model": b})
 
     # ---------------------------------------------------------------- 3. PackSizer, check_rabin_params
@@ -319,7 +397,7 @@ def run(ctx):
         lines.append("%s %d %s%d %d %d %d %d %d %d %d %d" % (opts_line(o0), 1 if has2 else 0, (opts_line(o1) + " ") if has2 else "",
                                                             mr[0], mr[1], mu[0], mu[1], rng.randint(0, 1), rng.randint(0, 1),
                                                             rng.randint(1, 2 ** 32), sa, sb))
-    io = run_lines(impl, lines, "smoke", timeout=3000)
+    io = run_lines_par(impl, lines, "smoke", 4, timeout=3000)
     mo = [canon_model(x) for x in run_lines(model, lines, "predict")] if model else [None] * len(lines)
     for ln, a, b in zip(lines, io, mo):
         st = [x.split("=", 1) for x in a.split(" ") if "=" in x]
@@ -351,7 +429,7 @@ def run(ctx):
                 "rule": "apply: stored config (valid, legacy, out-of-range) x 1-4 option records, each field unset/boundary/interior/huge, coherent and incoherent Rabin triples; repo: init + 1-5 changes with the config re-read from the backend after each; sizer: stored configs x blob type x repository size x pack size; smoke: accepted-leaning configs x prune limits (0/5/50/99/100/101/150%%, huge, sizes 0..2^64-1, unlimited) x file sizes.  non-trivial = an accepted change that names at least one setting / an effective change on a repository / a sizer evaluation without panic / a smoke run passing all stages; distinct by full case text",
                 "samples": samples, "distribution": hist,
                 "apply_statement_shapes": meta["shapes"] if meta else None,
-                "traces_validated_against_impl": sum(hist.get(k, 0) for k in ("apply_ok", "apply_refused", "init_ok", "init_refused", "sizer")) + sum(v for k, v in hist.items() if k.startswith("rabin_") or k.startswith("smoke_init") or k == "smoke_accepted"),
+                "traces_validated_against_impl": sum(hist.get(k, 0) for k in ("apply_ok", "apply_refused", "sizer")) + sum(v for k, v in hist.items() if k.startswith("init_")) + sum(v for k, v in hist.items() if k.startswith("rabin_") or k.startswith("smoke_init") or k == "smoke_accepted"),
                 "disagreements_checked": len(mism) + len(viol), "model_impl_mismatches": len(mism), "oracle_violations": len(viol)})
     for what, mode, case, out, extra, sig in viol[:60]:
         ctx.violation(what, {"mode": mode, "case": case, "impl": out, "detail": extra,
